@@ -10,12 +10,13 @@ LEVEL = 'exploration'
 RULE = ('the real sproc.appmonitor._run_sync loop (its ChildrenWatch / ExistingDataWatch watches on the in-memory ZooKeeper) '
         'runs 25-70 evaluations per history; time.sleep is rebound to "advance the virtual clock (1 s, or jumps of 30 s-2 h) '
         'and apply the next scripted disturbances": instances dying, monitor count/policy changes (targets 0-12, fifo/lifo/'
-        'unset), monitors created and deleted, and the REST boundary failing with each handled class (NotFound, BadRequest, '
+        'unset; a count-only change keeps the configured policy), monitors created and deleted, the connection of the monitor '
+        'dropping and coming back (SUSPENDED/CONNECTED, nothing reconfigured), and the REST boundary failing with each handled class (NotFound, BadRequest, '
         'Validation) or an unhandled one, for creates and deletes. restclient.post is replaced by a fake that records the call '
         'and dispatches to masterapi.create_apps / delete_apps. Oracle per evaluation and monitor from the recorded calls: '
         'count requested <= target - current; <= floor of an independent token bucket (2*target/h, cap 2*target, reset on '
         'reconfiguration, debit on success); on surplus exactly current-target instances deleted, oldest first (fifo/unset) '
-        'or newest first (lifo); never create and delete for one application in one evaluation; no call for suspended '
+        'or newest first (lifo) - the policy being the one the operator configured last, recorded by the harness; never create and delete for one application in one evaluation; no call for suspended '
         '(until the deadline) or deleted monitors; bounded progress: once faults stop and the budget is full, current == '
         'target within 2 evaluations. Non-trivial: a history with a handled failure (suspension), a scale-down and a '
         'rate-limited evaluation; distinct by hash of the per-evaluation call kinds.')
